@@ -1905,3 +1905,180 @@ func c10ImportsAllResolved(c *Ctx) {
 		c.Fail(rule, "anchor", fr.Decl.Pos(), "no loop performing the module lookup at its top level found in getModuleDepsRec")
 	}
 }
+
+// c11ResolverKept (RESOLVER-KEPT): json/yaml (and the re-parse of unrecognised fields) render custom options through
+// the image's resolver. An image derived from another by *dropping files* (ImageWithoutImports for --exclude-imports)
+// still carries options whose extensions are declared in the dropped files, so it must keep the resolver of the image
+// it was derived from; a resolver rebuilt from the remaining files makes json/yaml silently lose those options while
+// binpb/txtpb keep them. Decided on SSA: in bufimage, a function that receives an Image and calls an image constructor
+// with a non-nil resolver passes a value obtained from that parameter's Resolver().
+func c11ResolverKept(c *Ctx, pk *packages.Package) {
+	const rule = "RESOLVER-KEPT"
+	c.Rule(rule, "an image derived by dropping files keeps the resolver of its source image", 1)
+	p := c.P
+	n := 0
+	for _, sf := range p.SSAFuncsOf([]*packages.Package{pk}) {
+		var img *ssa.Parameter
+		for _, prm := range sf.Params {
+			if namedName(prm.Type()) == "Image" && strings.HasSuffix(namedPath(prm.Type()), "bufimage.Image") {
+				img = prm
+			}
+		}
+		if img == nil {
+			continue
+		}
+		for _, call := range callsIn(sf) {
+			callee := call.Call.StaticCallee()
+			if callee == nil || callee.Pkg == nil || callee.Pkg.Pkg != pk.Types {
+				continue
+			}
+			sig := callee.Signature
+			ri := -1
+			for i := 0; i < sig.Params().Len(); i++ {
+				if namedName(sig.Params().At(i).Type()) == "Resolver" {
+					ri = i
+				}
+			}
+			if ri < 0 || sig.Results().Len() == 0 || !strings.Contains(strings.ToLower(namedName(sig.Results().At(0).Type())), "image") {
+				continue
+			}
+			arg := call.Call.Args[ri]
+			if isNilConst(stripConv(arg)) {
+				continue
+			}
+			n++
+			kept := dependsOnCall(arg, func(cc *ssa.CallCommon) bool {
+				return cc.IsInvoke() && cc.Method.Name() == "Resolver" && cc.Value == ssa.Value(img)
+			})
+			rebuilt := dependsOnCall(arg, func(cc *ssa.CallCommon) bool {
+				fn := staticCalleeObj(cc)
+				return fn != nil && !cc.IsInvoke() && strings.Contains(fn.Name(), "Resolver") && fn.Name() != "Resolver"
+			})
+			c.Ob(rule, sf.Name()+"/"+callee.Name(), call.Pos(), kept && !rebuilt, true, "the derived image is constructed with the source image's Resolver(): %v (rebuilt from a file subset: %v)", kept, rebuilt)
+		}
+	}
+	if n == 0 {
+		c.Fail(rule, "anchor", token.NoPos, "no image constructor call with a resolver in a function taking an Image")
+	}
+}
+
+// c12ReadAfterInPlace (READ-AFTER-INPLACE): in in-place mode the generic list rewriter compacts the very slice it is
+// given and nils its tail. Whatever else is derived from the *original* list (the old->new oneof index table that the
+// fields are renumbered with) must be computed before the list is handed to the rewriter; reading `d.List` again
+// after `remapSlice(…, d.List, …)` sees the already compacted list, finds that nothing moved, and the fields keep
+// stale indexes - in in-place mode only, which is why the copying tests do not notice. Decided on the CFG: no read of
+// the same field of the same variable is reachable from the call that received it.
+func c12ReadAfterInPlace(c *Ctx, pk *packages.Package) {
+	const rule = "READ-AFTER-INPLACE"
+	c.Rule(rule, "a descriptor list is not read again after it was handed to the in-place rewriter", 8)
+	p := c.P
+	info := pk.TypesInfo
+	for _, fr := range p.FuncsOf(pk) {
+		if fr.Decl.Body == nil || !strings.HasSuffix(p.FileRel(fr.Decl.Pos()), "image_filter.go") {
+			continue
+		}
+		g := p.CFGOf(fr.Decl.Body, info)
+		k := 0
+		ast.Inspect(fr.Decl.Body, func(n ast.Node) bool {
+			call, ok := n.(*ast.CallExpr)
+			if !ok {
+				return true
+			}
+			fn := Callee(info, call)
+			if fn == nil || fn.Pkg() != pk.Types || fn.Name() != "remapSlice" || len(call.Args) < 3 {
+				return true
+			}
+			// the list argument: d.F or d.GetF()
+			list := ast.Unparen(call.Args[2])
+			if lc, ok := list.(*ast.CallExpr); ok && len(lc.Args) == 0 {
+				list = ast.Unparen(lc.Fun)
+			}
+			sel, ok := list.(*ast.SelectorExpr)
+			if !ok {
+				return true
+			}
+			owner := identObj(info, sel.X)
+			field := strings.TrimPrefix(sel.Sel.Name, "Get")
+			if owner == nil {
+				return true
+			}
+			k++
+			var later []string
+			ast.Inspect(fr.Decl.Body, func(m ast.Node) bool {
+				s2, ok := m.(*ast.SelectorExpr)
+				if !ok || s2 == sel || identObj(info, s2.X) != owner || strings.TrimPrefix(s2.Sel.Name, "Get") != field {
+					return true
+				}
+				if containsNode(call, s2) {
+					return true
+				}
+				// writes (d.F = …) are not reads
+				if as, ok := p.Parent(s2).(*ast.AssignStmt); ok {
+					for _, l := range as.Lhs {
+						if ast.Node(l) == ast.Node(s2) {
+							return true
+						}
+					}
+				}
+				if g.Reachable(call, s2) {
+					later = append(later, p.Pos(s2.Pos()))
+				}
+				return true
+			})
+			c.Ob(rule, fmt.Sprintf("%s/%s.%s", declName(fr.Decl), owner.Name(), field), call.Pos(), len(later) == 0, true, "%s.%s is handed to remapSlice and not read afterwards: %v %v", owner.Name(), field, len(later) == 0, later)
+			return true
+		})
+	}
+}
+
+// c12AnyURLLastSlash (ANY-URL-LAST-SLASH): the message name of an Any payload is what follows the LAST '/' of the type
+// URL (google/protobuf/any.proto: "the last segment of the URL's path must represent the fully qualified name"); the
+// prefix may itself contain slashes (example.com/schemas/v1/pkg.Msg). The closure walk that includes the types used
+// inside Any-typed option values must cut there: the FullName it looks up is derived from the URL through
+// strings.LastIndex*/path.Base, not through a first-separator function (Cut, Index, Split, SplitN, TrimPrefix).
+func c12AnyURLLastSlash(c *Ctx, pk *packages.Package) {
+	const rule = "ANY-URL-LAST-SLASH"
+	c.Rule(rule, "the message name of an Any type URL is taken after the last slash", 1)
+	p := c.P
+	n := 0
+	for _, sf := range p.SSAFuncsOf([]*packages.Package{pk}) {
+		for _, f := range allSSAFuncs(sf) {
+			for _, b := range f.Blocks {
+				for _, ins := range b.Instrs {
+					// the conversion string -> protoreflect.FullName of something derived from a "…URL…" value
+					ct, ok := ins.(*ssa.ChangeType)
+					if !ok || namedName(ct.Type()) != "FullName" {
+						continue
+					}
+					last, first, fromURL := false, "", false
+					sliceBack(ct.X, func(x ssa.Value) bool {
+						if cc, ok := x.(*ssa.Call); ok {
+							if fn := staticCalleeObj(&cc.Call); fn != nil && fn.Pkg() != nil {
+								switch fn.Pkg().Path() + "." + fn.Name() {
+								case "strings.LastIndex", "strings.LastIndexByte", "strings.LastIndexAny", "path.Base":
+									last = true
+								case "strings.Cut", "strings.Index", "strings.IndexByte", "strings.Split", "strings.SplitN", "strings.SplitAfterN":
+									first = fn.Name()
+								}
+							}
+							if cc.Call.IsInvoke() && cc.Call.Method.Name() == "String" {
+								// msg.Get(typeURLFd).String(): the URL read from the Any message
+								fromURL = true
+							}
+						}
+						return true
+					})
+					if !last && first == "" {
+						continue
+					}
+					_ = fromURL
+					n++
+					c.Ob(rule, fmt.Sprintf("%s#%d", ssaFuncName(f), n), ct.Pos(), last && first == "", true, "the name is cut at the last slash: %v (first-separator function used: %q)", last, first)
+				}
+			}
+		}
+	}
+	if n == 0 {
+		c.Fail(rule, "anchor", token.NoPos, "no FullName derived from a slash-separated URL found in bufimageutil")
+	}
+}
